@@ -36,6 +36,37 @@ def run_cli(cmd, text, timeout_s):
             pass
 
 
+def _has_quant(ob):
+    """a CLI `sat` on a quantified query comes without a model we can validate: not trusted"""
+    from .interp import has_quant
+
+    return has_quant(ob.goal) or any(has_quant(a) for a in ob.assumptions)
+
+
+def model_refutes(ob, model):
+    """Does the model really falsify the goal?  z3 may answer `sat` with a model that does not
+    satisfy a quantified formula (incomplete seq / MBQI): evaluate the negated goal under the model,
+    expanding integer-bounded quantifiers finitely.  Returns True / False / None (could not tell)."""
+    from .instantiate import inst
+
+    try:
+        v = z3.simplify(model.eval(z3.Not(ob.goal), model_completion=True))
+        if z3.is_true(v):
+            return True
+        if z3.is_false(v):
+            return False
+        # exact on the instantiated range only; used solely to DISCARD models that fail
+        e = inst(v, True, list(range(-1, 9)), {}, [20000])
+        v2 = z3.simplify(model.eval(e, model_completion=True))
+        if z3.is_false(v2):
+            return False
+        if z3.is_true(v2):
+            return True
+    except z3.Z3Exception:
+        pass
+    return None
+
+
 def _z3_check(ob, timeout_ms):
     s = z3.Solver()
     s.set("timeout", timeout_ms)
@@ -55,6 +86,13 @@ def _z3_check(ob, timeout_ms):
             ob.model = s.model()
         except z3.Z3Exception:
             ob.model = None
+        if ob.model is not None and _has_quant(ob) and model_refutes(ob, ob.model) is False:
+            # spurious `sat`: the model does not falsify the goal -> nothing decided
+            ob.verdict = "unknown"
+            ob.model = None
+            ob.last_reason = "z3 answered sat with a model that fails validation (quantifier incompleteness)"
+            ob.detail = (ob.detail + " " + ob.last_reason).strip()
+            return z3.unknown
     else:
         ob.verdict = "unknown"
         ob.last_reason = s.reason_unknown()
@@ -116,7 +154,7 @@ def solve_one(ob, timeout_ms=10000, use_cvc5=True, cross=False, finite=True, ski
         if out == "unsat":
             ob.verdict = "discharged"
             ob.solver = "cvc5-1.0.3"
-        elif out == "sat":
+        elif out == "sat" and not _has_quant(ob):
             ob.verdict = "refuted"
             ob.solver = "cvc5-1.0.3"
             ob.model = None
@@ -136,7 +174,7 @@ def solve_one(ob, timeout_ms=10000, use_cvc5=True, cross=False, finite=True, ski
             if out2 == "unsat":
                 ob.verdict = "discharged"
                 ob.solver = "z3-4.8.12"
-            elif out2 == "sat":
+            elif out2 == "sat" and not _has_quant(ob):
                 ob.verdict = "refuted"
                 ob.solver = "z3-4.8.12"
             else:
